@@ -4,10 +4,43 @@
 //
 // Ghost maps (declared in /verif/contracts/external.contracts): is_glob[r] holds for matchers that were compiled
 // from a glob pattern by this package, glob_of[r] is that pattern.
+//
+// The translation is specified byte by byte (independently of the code): '*' -> ".*", '?' -> ".", a regular-expression
+// metacharacter c -> "\" c, every other byte -> itself; the result is "(?s)^" ++ the translations in order ++ "$".
+// gOff(p, i) is the offset of the translation of p[i] in the result.
 
 package glob
 
+//@ spec func isMeta(c int) bool = c == 92 || c == 46 || c == 43 || c == 40 || c == 41 || c == 124 || c == 91 || c == 93 || c == 123 || c == 125 || c == 94 || c == 36
+//@ spec func trLen(c int) int = ((c == 42 || isMeta(c)) ? 2 : 1)
+//@ spec func tr0(c int) int = (c == 42 ? 46 : (c == 63 ? 46 : (isMeta(c) ? 92 : c)))
+//@ spec func tr1(c int) int = (c == 42 ? 42 : c)
+//@ spec func gOff(p string, i int) int
+//@ axiom gOff_zero: forall p string :: gOff(p, 0) == 5
+//@ axiom gOff_step: forall p string, i int :: 0 <= i ==> gOff(p, i + 1) == gOff(p, i) + trLen(p[i])
+
+// isGlobRE(s, p): s is the translation of the glob p. ascii(p): the domain on which the regexp package is assumed to accept every translation
+// (it rejects invalid UTF-8; the assumption itself is the axiom glob_translations_compile in /verif/contracts/external.contracts).
+//@ spec func isGlobRE(s string, p string) bool = len(s) == gOff(p, len(p)) + 1 && s[0] == 40 && s[1] == 63 && s[2] == 115 && s[3] == 41 && s[4] == 94 && s[len(s) - 1] == 36 && (forall i int :: 0 <= i && i < len(p) ==> s[gOff(p, i)] == tr0(p[i])) && (forall i int :: 0 <= i && i < len(p) && trLen(p[i]) == 2 ==> s[gOff(p, i) + 1] == tr1(p[i]))
+//@ spec func ascii(p string) bool = forall i int :: 0 <= i && i < len(p) ==> p[i] < 128
+
+//@ func regexpFromGlob
+//@ assigns nothing
+//@ ensures {C17} len(result) == gOff(pattern, len(pattern)) + 1
+//@ ensures {C17} result[0] == 40 && result[1] == 63 && result[2] == 115 && result[3] == 41 && result[4] == 94
+//@ ensures {C17} result[len(result) - 1] == 36
+//@ ensures {C17} forall i int :: 0 <= i && i < len(pattern) ==> result[gOff(pattern, i)] == tr0(pattern[i])
+//@ ensures {C17} forall i int :: 0 <= i && i < len(pattern) && trLen(pattern[i]) == 2 ==> result[gOff(pattern, i) + 1] == tr1(pattern[i])
+//@ loop 0
+//@   invariant 0 <= n && n <= len(pattern) && buf_len[&re2Pattern] == gOff(pattern, n) && 5 <= gOff(pattern, n)
+//@   invariant buf_data[&re2Pattern][0] == 40 && buf_data[&re2Pattern][1] == 63 && buf_data[&re2Pattern][2] == 115 && buf_data[&re2Pattern][3] == 41 && buf_data[&re2Pattern][4] == 94
+//@   invariant forall i int :: 0 <= i && i < n ==> gOff(pattern, i) + trLen(pattern[i]) <= gOff(pattern, n) && 5 <= gOff(pattern, i)
+//@   invariant forall i int :: 0 <= i && i < n ==> buf_data[&re2Pattern][gOff(pattern, i)] == tr0(pattern[i])
+//@   invariant forall i int :: 0 <= i && i < n && trLen(pattern[i]) == 2 ==> buf_data[&re2Pattern][gOff(pattern, i) + 1] == tr1(pattern[i])
+//@   decreases len(pattern) - n
+
 //@ func MustCompile
+//@ requires {C17} ascii(pattern)
 //@ assigns nothing
 //@ defines is_glob[result]: true
 //@ defines glob_of[result]: pattern
@@ -19,3 +52,4 @@ package glob
 //@ defines glob_of[result0]: pattern
 //@ ensures {C17} err == nil ==> result0 != nil && fresh(result0)
 //@ ensures {C17} err != nil ==> result0 == nil
+//@ ensures {C17} ascii(pattern) ==> err == nil
